@@ -175,9 +175,21 @@ func checkC11(r *core.Run) {
 			if !r.ConsensusFuncs()[caller] {
 				continue
 			}
-			key := core.Key("CAP-delmeta", "DeleteMeta called from "+r.P.Name(caller))
-			switch r.P.Name(caller) {
-			case "sao/keeper.msgServer.Terminate", "model.EndBlocker":
+			key := core.Key("CAP-delmeta", "DeleteMeta called from "+r.KeyName(caller))
+			tabled := func(n string) bool { return n == "sao/keeper.msgServer.Terminate" || n == "model.EndBlocker" }
+			okCaller := tabled(r.P.Name(caller))
+			if !okCaller && r.P.Transparent(caller) {
+				// a helper extracted from a tabled caller: every known function it is reached from must be tabled
+				os := r.Owners(caller)
+				okCaller = len(os) > 0
+				for _, o := range os {
+					if !tabled(r.P.Name(o)) {
+						okCaller = false
+					}
+				}
+			}
+			switch {
+			case okCaller:
 				r.Discharge("CAP-delmeta", key, r.P.FuncPos(caller), "tabled caller")
 			default:
 				r.Violate("CAP-delmeta", key, r.P.FuncPos(caller), "a data model can be deleted from "+r.P.Name(caller)+": models may disappear other than by owner termination or at the end of their paid lifetime")
@@ -194,32 +206,66 @@ func checkC11(r *core.Run) {
 		if fn == nil {
 			continue
 		}
-		res := r.Resolver(fn)
 		key := core.Key("T-consume", c.fn, c.list)
 		ok := false
-		for _, l := range cfgx.Loops(fn) {
-			if !rangesField(r, fn, l, c.list) {
-				continue
-			}
-			hb := map[*ssa.BasicBlock]bool{}
-			for b := range l.Body {
-				for _, ins := range b.Instrs {
-					if ci, isC := ins.(ssa.CallInstruction); isC {
-						if n, _ := res.CalleeName(ci.Common()); n == c.handler {
-							hb[b] = true
-						}
+		// the loop may sit in a helper extracted from the end-blocker: every frame is searched; the entry is removed
+		// after the loop in that helper, or after the call that leads there in an enclosing frame
+		for _, fr := range frames(r, fn) {
+			g := fr.Fn
+			fns := fr.Fns(fn)
+			for _, l := range cfgx.Loops(g) {
+				ro := normT(fr.Sub(rangedOver(r, g, l)))
+				if ro == "" || !strings.HasSuffix(ro, "."+c.list) || strings.HasPrefix(ro, "phi(") || strings.HasPrefix(ro, "builtin.append(") {
+					continue
+				}
+				hb := map[*ssa.BasicBlock]bool{}
+				for b := range blocksReaching(r, g, c.handler) {
+					if l.Body[b] {
+						hb[b] = true
 					}
 				}
-			}
-			if len(hb) > 0 && cutsAllCycles(l, hb) {
-				// entry removed after the loop on every path to return
-				rm := blocksCalling(r, fn, c.remove)
+				if len(hb) == 0 || !cutsAllCycles(l, hb) {
+					continue
+				}
 				exitB := l.Header.Succs[1]
 				if l.Body[exitB] {
 					exitB = l.Header.Succs[0]
 				}
-				if len(rm) > 0 && (rm[exitB] || forwardAvoid(exitB, rm, nil, isReturnBlock) == nil) {
-					ok = true
+				for lvl := len(fr.Chain); lvl >= 0 && !ok; lvl-- {
+					rm := blocksCalling(r, fns[lvl], c.remove)
+					if len(rm) == 0 {
+						continue
+					}
+					from := exitB
+					if lvl < len(fr.Chain) {
+						from = fr.Chain[lvl].Block()
+						// the removal must come after the call in its block, or on every path from it to a return
+						after := false
+						seenCall := false
+						for _, ins := range from.Instrs {
+							if ins == ssa.Instruction(fr.Chain[lvl]) {
+								seenCall = true
+								continue
+							}
+							if ci, isC := ins.(ssa.CallInstruction); isC && seenCall {
+								if n, _ := r.Resolver(fns[lvl]).CalleeName(ci.Common()); n == c.remove {
+									after = true
+								}
+							}
+						}
+						if after {
+							ok = true
+							continue
+						}
+						delete(rm, from)
+						if len(rm) > 0 && forwardAvoid(from, rm, nil, isReturnBlock) == nil {
+							ok = true
+						}
+						continue
+					}
+					if rm[from] || forwardAvoid(from, rm, nil, isReturnBlock) == nil {
+						ok = true
+					}
 				}
 			}
 		}
@@ -259,40 +305,70 @@ func checkC11(r *core.Run) {
 		}
 	}
 	if anchor := r.Func("T-lifetime", "sao/keeper.msgServer.Renew"); anchor != nil {
-		// the per-data-id body may have been extracted into a helper: the clause is evaluated in the function that
-		// persists the shard (the end of the data-id iteration is then that helper's return)
-		fn := anchor
+		// typestate walk (through helpers outside the vocabulary): after a shard's renewal is persisted (SetShard),
+		// the data model's lifetime is extended (ExtendMetaDuration) before the iteration over the data ids moves on
+		// or Renew succeeds
+		dataIter := map[ssa.Instruction]bool{}
 		for _, g := range transparentClosure(r, anchor) {
-			if len(callsIn(r, g, "order/keeper.Keeper.SetShard")) > 0 {
-				fn = g
-				break
-			}
-		}
-		ext := blocksCallingDeep(r, fn, fExtendMeta, 0)
-		bad := false
-		n := 0
-		for _, c := range callsIn(r, fn, "order/keeper.Keeper.SetShard") {
-			n++
-			hdr := innermostLoopHeader(fn, c.Block())
-			// from the shard loop to the end of the data-id iteration
-			var outer *ssa.BasicBlock
-			for _, l := range cfgx.Loops(fn) {
-				if l.Body[c.Block()] && l.Header != hdr {
-					if outer == nil || l.Body[outer] {
-						outer = l.Header
+			for _, l := range cfgx.Loops(g) {
+				if ro := rangedOver(r, g, l); strings.HasSuffix(ro, ".Data") && len(l.Header.Instrs) > 0 {
+					// the first non-φ instruction of the header
+					for _, ins := range l.Header.Instrs {
+						if _, isPhi := ins.(*ssa.Phi); !isPhi {
+							dataIter[ins] = true
+							break
+						}
 					}
 				}
 			}
-			stop := func(b *ssa.BasicBlock) bool { return b == outer || (isReturnBlock(b) && successReturnIn(r, fn, b)) }
-			if p := forwardAvoid(c.Block(), ext, nil, stop); p != nil && len(p) > 1 {
-				bad = true
-			}
 		}
+		t := &tsRule{r: r,
+			events: func(f *ssa.Function, ins ssa.Instruction, T func(ssa.Value) string) []string {
+				var ev []string
+				if dataIter[ins] {
+					ev = append(ev, "nextdata")
+				}
+				switch x := ins.(type) {
+				case ssa.CallInstruction:
+					n, cs := r.Resolver(f).CalleeName(x.Common())
+					if n == "order/keeper.Keeper.SetShard" {
+						ev = append(ev, "setshard")
+					}
+					if n == fExtendMeta {
+						ev = append(ev, "extend")
+					} else {
+						for _, h := range cs {
+							if h != f && !r.P.Transparent(h) && alwaysCalls(r, h, fExtendMeta, 0) {
+								ev = append(ev, "extend")
+							}
+						}
+					}
+				case *ssa.Return:
+					if f == anchor && successReturnIn(r, anchor, x.Block()) {
+						ev = append(ev, "success")
+					}
+				}
+				return ev
+			},
+			step: func(st uint8, ev string) (uint8, string) {
+				switch ev {
+				case "setshard":
+					return 1, ""
+				case "extend":
+					return 0, ""
+				case "nextdata", "success":
+					if st == 1 {
+						return st, "renewal persisted, lifetime not extended"
+					}
+				}
+				return st, ""
+			}}
+		res := t.run(anchor, 0)
 		key := core.Key("T-lifetime", "sao/keeper.msgServer.Renew", "renewal persisted => model lifetime extended")
-		if n > 0 && !bad && len(ext) > 0 {
-			r.Discharge("T-lifetime", key, r.P.FuncPos(fn), "after a shard's renewal info is persisted the data-id iteration passes ExtendMetaDuration before it ends")
+		if res.counts["setshard"] > 0 && res.bad == "" && res.counts["extend"] > 0 {
+			r.Discharge("T-lifetime", key, r.P.FuncPos(anchor), "after a shard's renewal info is persisted the data-id iteration passes ExtendMetaDuration before it ends")
 		} else {
-			r.Violate("T-lifetime", key, r.P.FuncPos(fn), "Renew can persist a shard's renewal without extending the data model's lifetime: the model is deleted at the old end height although paid shards remain")
+			r.Violate("T-lifetime", key, r.P.FuncPos(anchor), "Renew can persist a shard's renewal without extending the data model's lifetime: the model is deleted at the old end height although paid shards remain")
 		}
 	}
 	rulePaidEnd(r)
